@@ -469,7 +469,22 @@ func genC10(r *R, sc *Scenario) {
 	sc.RunForMs = Pick(r, 30000, 60000, 120000)
 	sc.QuietMs = 1000
 	sc.Arm = "probes"
-	if r.P(350) {
+	if r.P(120) {
+		// the subject becomes ready, ends by itself and is started again on request: the new
+		// launch is not ready before a probe of its own has succeeded
+		p := spec.Procs[0]
+		p.Restart, p.MaxRestarts, p.StopTimeout = "no", 0, nil
+		p.Readiness.InitialDelay, p.Readiness.Period, p.Readiness.SuccessThreshold = iptr(Pick(r, 1, 2, 3)), iptr(1), nil
+		ts := sc.Scripts[p.Token]
+		ts.Launches[0] = simos.Script{LifeMs: Pick(r, 4500, 6000), Exit: Pick(r, 0, 1)}
+		ts.Launches[1] = simos.Script{LifeMs: -1, TermLagMs: 10}
+		ps := sc.Scripts["simprobe:"+p.Token]
+		for k := 0; k < 3 && k < len(ps.Launches); k++ {
+			ps.Launches[k] = simos.Script{LifeMs: Pick(r, 5, 50), Exit: 0}
+		}
+		sc.Clients = append(sc.Clients, Client{Name: "c", Ops: []Op{{AtMs: Pick(r, 7000, 8500, 10000), Op: "start", Arg: p.Name}}})
+		sc.Arm = "startagain"
+	} else if r.P(350) {
 		at := whenMs(r, 20000)
 		if r.P(400) {
 			// at the very instant at which a probe run may complete
